@@ -168,4 +168,5 @@ def run(tier):
     # accept/reject decision of the receiving chain needs (trace-validated real runs with forced exchanges)
     from harness import c03
     c03.pt_part(ck, tier, unforced=True)
+    c03.dtype_part(ck, tier)        # whole-number inputs given as integer arrays: same kernel, same trajectory
     return ck.finish()
